@@ -7,5 +7,7 @@ From CV Require Import Model.C17_TPR.
 Ltac c17_red :=
   cbv [gauss_psf_R gauss_w rsum map fold_right nth legacy_gauss_R legacy_vonmises_R legacy_sinc_R
        sq ssq gauss_iid_logpdf gauss_diag_logpdf post_logd_iid post_logd_diag fst snd length INR
-       ph_gauss_R ph_sinc_R ph_vonmises_R ph_bumps_R ph_dgauss_R].
+       ph_gauss_R ph_sinc_R ph_vonmises_R ph_bumps_R ph_dgauss_R poisson_default_R heat_default_R dgauss_inc_R].
 Ltac c17_encl := c17_red; interval with (i_prec 90).
+(* certificate + enclosure: the left conjunct is an executable check of the model (vm_compute), the right one the enclosure *)
+Ltac c17_both := split; [vm_compute; reflexivity | c17_encl].
